@@ -1097,6 +1097,7 @@ decl(struct scope *s, struct func *f)
 			} else if (d->linkage != LINKNONE && d->u.obj.storage == SDSTATIC) {
 				if (!d->defined && !d->tentative) {
 					d->tentative = true;
+					d->u.obj.tentative = tok.loc;
 					*tentativedefnsend = d;
 					tentativedefnsend = &d->next;
 				}
@@ -1180,7 +1181,10 @@ emittentativedefns(void)
 	struct decl *d;
 
 	for (d = tentativedefns; d; d = d->next) {
-		if (!d->defined)
-			defineobj(d, NULL, false, NULL);
+		if (d->defined)
+			continue;
+		if (d->type->incomplete)
+			error(&d->u.obj.tentative, "object '%s' has incomplete type", d->name);
+		defineobj(d, NULL, false, NULL);
 	}
 }
